@@ -164,8 +164,10 @@ def locate(item):
     src, m = load_src(item['file'])
     lo, hi = 0, len(src)
     try:
-        for cont in item.get('container', []) if isinstance(item.get('container'), list) else ([item['container']] if item.get('container') else []):
-            s, ob, e = rscan.find_block(src, m, cont, lo, hi)
+        conts = item.get('container', []) if isinstance(item.get('container'), list) else ([item['container']] if item.get('container') else [])
+        for ci, cont in enumerate(conts):
+            last = (ci == len(conts) - 1) and item['kind'] == 'fn'
+            s, ob, e = rscan.find_block(src, m, cont, lo, hi, has_fn=item['name'] if last else None)
             lo, hi = ob + 1, e - 1
         if item['kind'] == 'fn':
             s, ob, e = rscan.find_fn(src, m, item['name'], lo, hi)
